@@ -11,6 +11,7 @@ import (
 	"time"
 
 	"github.com/pion/logging"
+	"github.com/pion/transport/v4/deadline"
 )
 
 type vLogger struct{}
@@ -227,4 +228,11 @@ func vFireAll(a *Association) {
 	vFireRtx(a, a.tReconfig)
 	vFireRtx(a, a.t1Init)
 	vFireRtx(a, a.t1Cookie)
+}
+
+// deadlineExceeded returns a write deadline that has already expired.
+func deadlineExceeded() *deadline.Deadline {
+	d := deadline.New()
+	d.Set(time.Now().Add(-time.Second))
+	return d
 }
